@@ -61,6 +61,11 @@ def gen_str(r, kind, sep, esc):
     else:                      # adversarial: everything
         alpha = sep + '"' + esc + ' a' + sep[0]
     n = r.choice([0, 1, 1, 2, 3, 4, r.randint(0, 12)])
+    if kind == 'huge':
+        # string fields far beyond typical field-size limits (4 KiB ... 300 KiB), with separators / quotes / escapes inside
+        alpha = sep + '"' + esc + ' ab'
+        unit = ''.join(r.choice(alpha) for _ in range(61))
+        return unit * r.choice([70, 1200, 2300, 5000])
     return ''.join(r.choice(alpha) for _ in range(n))
 
 
@@ -106,7 +111,7 @@ class C18(Check):
                    'floats are finite and compared with == plus sign']
     ANCHORS = ['rxsci/container/csv.py', 'rxsci/io/file.py', 'rxsci/framing/line.py']
     REQUIRED_TAGS = ['stream', 'file', 'enc=None', 'enc=utf-8', 'multi-chunk-file', 'cols=1', 'cols=8',
-                     'skind=adversarial', 'fkind=bits', 'sep=,', 'sep=;', 'sep=|', 'sep=tab', 'sep=multi']
+                     'skind=adversarial', 'skind=huge', 'fkind=bits', 'sep=,', 'sep=;', 'sep=|', 'sep=tab', 'sep=multi']
     REQUIRED_OBSERVED = ['fields_compared', 'rows_needing_quote_merge']
 
     def __init__(self):
@@ -127,6 +132,11 @@ class C18(Check):
         fkinds = ['special', 'bits', 'decimal', 'digits17', 'integral', 'mixed']
         file_every = max(1, n // nfiles) if tier == 'quick' else 700
         for k in range(n):
+            if k % 600 == 300:
+                yield {'cols': ['str', 'int', 'str'], 'sep': SEPS[(k // 600) % len(SEPS)], 'esc': ESCS[(k // 600) % 2],
+                       'rows': {'n': rng.choice([1, 3]), 'skind': 'huge', 'fkind': 'special', 'rseed': rng.randrange(1 << 30)},
+                       'mode': ('stream', 'file')[(k // 1200) % 2], 'encoding': (None, 'utf-8')[(k // 2400) % 2]}
+                continue
             ncols = rng.choice([1, 2, 3, 4, 8]) if k % 7 else (1, 8)[(k // 7) % 2]
             cols = [rng.choice(['int', 'float', 'bool', 'str', 'str', 'float']) for _ in range(ncols)]
             if k % 3 == 0 and 'str' not in cols:
